@@ -117,6 +117,23 @@ def _compare(masked, unmasked, sens, mask, values_by_group, label):
             _compare(masked[k], unmasked[k], sens, mask, sub_vals, label)
 
 
+def _groups(tree):
+    """leaf groups (the maps holding name/num/pw/plain) of a rendered tree, in order"""
+    if isinstance(tree, list):
+        out = []
+        for t in tree:
+            out += _groups(t)
+        return out
+    if isinstance(tree, dict):
+        if "plain" in tree and "name" in tree:
+            return [tree]
+        out = []
+        for v in tree.values():
+            out += _groups(v)
+        return out
+    return []
+
+
 def _mk(pos: str):
     @obligation(prop="C10", name="mask_" + pos, group="mask", sites=("mask", "nomask"), encodes=ENC,
                 stubs=("FakeFS",), budget={"quick": 200, "thorough": 500},
@@ -152,6 +169,15 @@ def _mk(pos: str):
             sens = {"name": ss, "num": si, "pw": sp}
             live = {"name": s, "num": n, "pw": p}
             second = {"name": "second", "num": 1, "pw": "x"}
+            # without a mask NOTHING is altered, empty / zero values of sensitive fields included: the plain
+            # leaves are rendered as the values the configuration holds (independent of the masked rendering)
+            expect_groups = [live, second] if pos == "item" else [live]
+            got_groups = _groups(unmasked)
+            hold("nomask", len(got_groups) == len(expect_groups), "leaf groups missing from the unmasked tree")
+            for g, want in zip(got_groups, expect_groups):
+                hold("nomask", g["name"] == want["name"] and g["num"] == want["num"] and type(g["num"]) is int
+                     and g["plain"] == "visible",
+                     lambda: "without a mask the tree holds %r for values %r" % (g, want))
             if pos == "item":
                 hold("mask", list(masked.keys()) == list(unmasked.keys()), "key set altered")
                 hold("mask", masked["top"] == unmasked["top"], "top altered")
@@ -267,7 +293,7 @@ def mask_sensitive_container(kind: int, sens: bool, nested: bool, mi: int) -> bo
             budget={"quick": 200, "thorough": 400},
             what="configurations held in a list that is itself an item of another typed container (list of lists of "
                  "configurations, dict of lists of configurations): sensitive leaves are masked like anywhere else")
-def mask_nested_container(in_dict: bool, ss: bool, si: bool, vi: int, mi: int) -> bool:
+def mask_nested_container(in_dict: bool, ss: bool, si: bool, vi: int, mi: int, empty_first: bool = False) -> bool:
     """
     pre: 0 <= vi <= 2 and 0 <= mi <= 3
     post: _
@@ -292,12 +318,17 @@ def mask_nested_container(in_dict: bool, ss: bool, si: bool, vi: int, mi: int) -
     else:
         schema.box = ListField(ListField(item), default=lambda: [])
     cfg = schema()
-    cfg.box = {"k": [{"name": s, "num": n_}]} if in_dict else [[{"name": s, "num": n_}]]
+    # (empty_first: the FIRST inner container holds no configuration, a later one does)
+    if in_dict:
+        cfg.box = {"a": [], "k": [{"name": s, "num": n_}]} if empty_first else {"k": [{"name": s, "num": n_}]}
+    else:
+        cfg.box = [[], [{"name": s, "num": n_}]] if empty_first else [[{"name": s, "num": n_}]]
+    at = 1 if empty_first else 0
     unmasked = cfg.to_tree()
     hold("nomask", cfg.to_tree(sensitive_mask=None) == unmasked, "mask=None altered the tree")
     masked = cfg.to_tree(sensitive_mask=mask)
-    leaf_u = unmasked["box"]["k"][0] if in_dict else unmasked["box"][0][0]
-    leaf_m = masked["box"]["k"][0] if in_dict else masked["box"][0][0]
+    leaf_u = unmasked["box"]["k"][0] if in_dict else unmasked["box"][at][0]
+    leaf_m = masked["box"]["k"][0] if in_dict else masked["box"][at][0]
     hold("mask", leaf_m["plain"] == "visible", "non-sensitive leaf altered")
     for key, sens, live in (("name", ss, s), ("num", si, n_)):
         if sens and mask is not None and live not in ("", 0):
